@@ -59,6 +59,10 @@ ASSUMPTIONS = ["a git call either takes effect completely or not at all (no torn
                "every checked-out branch exists (wf) — what git itself maintains",
                "TemporaryDirectory cleanup itself does not fail"]
 
+# Which variant of tmp_worktree the model describes: False = the code as it is (`worktree add` before the try block, finding
+# C20-F2 known); True = the proposed repair (existence test of the temporary branch, `worktree add` inside the try block).
+# Flip it when the repair has landed in the tree under test (VERIF_C20_GUARD=1 tries it against a scratch clone).
+GUARD = os.environ.get("VERIF_C20_GUARD", "0") == "1"
 PKG = "c20pkg"
 ABSENT_PKG = "c20absentpkg"
 GIT_ID = ["-c", "user.name=t", "-c", "user.email=t@t"]
@@ -537,24 +541,47 @@ def py_resolve(state, ref):
 
 
 def py_classify(state, ref, F, isrepo):
-    """Mirror of Model.classify."""
-    f_assert, f_mk, f_add, f_rm, f_bd = F
+    """Mirror of Model.classify (code as it is) / Model.classify_guarded (GUARD: the repaired variant)."""
+    f_assert, f_mk, f_list, f_add, f_rm, f_bd, f_rt = F
     reaches_add = f_assert == ["ok"] and isrepo and not f_mk
-    add_possible = py_resolve(state, ref) is not None and ("griffe-" + py_checkout_name(ref)) not in dict(map(tuple, state[3]))
-    if reaches_add and add_possible and f_add[0] in ("fail-after", "raise-after"):
+    has_branch = ("griffe-" + py_checkout_name(ref)) in dict(map(tuple, state[3]))
+    resolvable = py_resolve(state, ref) is not None
+    cleanup_benign = f_rm[0] in ("ok", "fail-after") and f_bd[0] in ("ok", "fail-after", "raise-after")
+    rm_excluded = reaches_add and f_rt[0] not in ("ok", "raise-after")
+    if GUARD:
+        reaches_try = reaches_add and f_list == ["ok"] and not has_branch
+        leftover = {"ok": "full", "fail-after": "full", "raise-after": "full", "torn": "branch"}.get(f_add[0], "nothing")
+        remove_quiet = not (f_rm[0] in ("raise-before", "raise-after") or (f_rm[0] == "torn" and len(f_rm) > 1))
+        ok = {"nothing": True, "branch": remove_quiet and f_bd[0] in ("ok", "fail-after", "raise-after"), "full": cleanup_benign}[leftover]
+        if not rm_excluded and (not reaches_try or not resolvable or ok):
+            return "benign"
+        return "excluded-rmtree-fault" if rm_excluded else "excluded-cleanup-fault"
+    add_possible = resolvable and not has_branch
+    if reaches_add and add_possible and f_add[0] in ("fail-after", "raise-after", "torn"):
         return "gap-add-after"
     reaches_cleanup = reaches_add and add_possible and f_add == ["ok"]
-    benign = f_rm[0] in ("ok", "fail-after") and f_bd[0] in ("ok", "fail-after", "raise-after")
-    if reaches_cleanup and not benign:
+    if reaches_cleanup and not cleanup_benign:
         return "excluded-cleanup-fault"
+    if rm_excluded:
+        return "excluded-rmtree-fault"
     return "benign"
 
 
 # --------------------------------------------------------------------------------------------- fault injection
 
 OK = ["ok"]
-NO_FAULTS = [OK, False, OK, OK, OK]
-STEP_INDEX = {"assert": 0, "add": 2, "remove": 3, "branchD": 4}
+# fault vector of one load_git: [assert, mkdtemp raises, list (repaired variant only), add, remove, branchD, rmtree]
+NO_FAULTS = [OK, False, OK, OK, OK, OK, OK]
+STEP_INDEX = {"assert": 0, "list": 2, "add": 3, "remove": 4, "branchD": 5}
+RMTREE = 6
+
+
+def faults(**kw):
+    """NO_FAULTS with the named positions replaced: faults(add=["fail-after"], rmtree=["torn", "OSError"], mkdtemp=True)."""
+    F = [OK, False, OK, OK, OK, OK, OK]
+    for k, v in kw.items():
+        F[{"mkdtemp": 1, "rmtree": RMTREE}.get(k, STEP_INDEX.get(k))] = v
+    return F
 
 
 def classify_git_args(args):
@@ -573,23 +600,30 @@ def classify_git_args(args):
         return "remove"
     if a[:2] == ["branch", "-D"]:
         return "branchD"
+    if a[:2] == ["branch", "--list"]:
+        return "list"
     if a[:2] == ["tag", "-l"]:
         return "tag"
     return "unknown:" + " ".join(a[:3])
 
 
 def make_exc(name):
-    return KeyboardInterrupt("injected") if name == "KeyboardInterrupt" else Injected("injected")
+    if name == "KeyboardInterrupt":
+        return KeyboardInterrupt("injected")
+    if name == "OSError":
+        return OSError(5, "injected: input/output error")
+    return Injected("injected")
 
 
 class Control:
-    """Shared by the git proxy, the extension and the stage wrappers during one implementation run."""
+    """Shared by the git proxy, the file-system seams, the extension and the stage wrappers during one implementation run."""
 
-    def __init__(self, env, git_plans, event_plans, mkdtemp_plans):
+    def __init__(self, env, git_plans, event_plans, mkdtemp_plans, rmtree_plans=None):
         self.env = env
         self.git_plans = git_plans          # {phase: {step: fault}}, phase 1 = first load_git, 2 = second
         self.event_plans = event_plans      # {phase: {point index: action}}
         self.mkdtemp_plans = mkdtemp_plans  # {phase: bool}
+        self.rmtree_plans = rmtree_plans or {}   # {phase: rmfault}
         self.phase = 0
         self.in_git_load = False
         self.points = {}                    # phase -> list of point names hit
@@ -600,6 +634,7 @@ class Control:
         self.dirty_at_remove = {}
         self.unknown = []
         self.wrote = 0
+        self.rmtree_calls = []
 
     # hooks and loader stages
     def point(self, name):
@@ -617,6 +652,38 @@ class Control:
                 self.wrote += 1
             return
         raise make_exc(action[1])
+
+    # file-system seams: any directory created / removed directly under TMPDIR while the implementation runs
+    def under_tmp(self, path):
+        try:
+            return os.path.dirname(os.path.abspath(os.fspath(path))) == str(self.env.tmp)
+        except TypeError:
+            return False
+
+    def mkdir(self, real, path, *a, **k):
+        if self.under_tmp(path):
+            if self.mkdtemp_plans.get(self.phase):
+                raise OSError(28, "injected: no space left on device")
+            self.tmp_names.setdefault(self.phase, os.path.basename(os.fspath(path)))
+        return real(path, *a, **k)
+
+    def rmtree(self, real, path, *a, **k):
+        if not self.under_tmp(path):
+            return real(path, *a, **k)
+        fault = self.rmtree_plans.get(self.phase, OK)
+        self.rmtree_calls.append((self.phase, fault[0]))
+        if fault[0] == "ok":
+            return real(path, *a, **k)
+        swallow = fault[1] == "OSError" and (k.get("ignore_errors") or (a and a[0]))   # shutil.rmtree(ignore_errors=True) semantics
+        if fault[0] == "torn":
+            for name in os.listdir(path):
+                sub = os.path.join(path, name)
+                (real(sub) if os.path.isdir(sub) and not os.path.islink(sub) else os.unlink(sub))
+        elif fault[0] == "raise-after":
+            real(path, *a, **k)
+        if swallow:
+            return None
+        raise make_exc(fault[1])
 
     # git calls
     def git_call(self, kind, args, kwargs, real):
@@ -643,18 +710,23 @@ class Control:
             fault = self.git_plans.get(self.phase, {}).get(step, OK)
         self.calls.append((self.phase, step, fault[0]))
         try:
-            return self._apply(kind, fault, args, kwargs, real)
+            return self._apply(kind, step, fault, args, kwargs, real)
         finally:
             if step == "branchD":
                 self.in_git_load = False
 
-    def _apply(self, kind, fault, args, kwargs, real):
+    def _apply(self, kind, step, fault, args, kwargs, real):
         f = fault[0]
         if f == "ok":
             return real(args, **kwargs)
         if f == "raise-before":
             raise make_exc(fault[1])
         if f == "fail-before":
+            return self._failed(kind, args, kwargs, None)
+        if f == "torn":
+            self._torn(step, [str(a) for a in args])
+            if len(fault) > 1:
+                raise make_exc(fault[1])
             return self._failed(kind, args, kwargs, None)
         kw = dict(kwargs)
         if kind == "run":
@@ -666,6 +738,22 @@ class Control:
         if f == "raise-after":
             raise make_exc(fault[1])
         return self._failed(kind, args, kwargs, res)
+
+    def _torn(self, step, a):
+        """The first half of a git command, as git itself performs it (builtin/worktree.c):
+        `worktree add -b B PATH REF` runs `git branch B REF` first; `worktree remove PATH` deletes the working directory
+        first (when it is going to accept the request at all) and the registration second."""
+        pre = a[:a.index("worktree")] if "worktree" in a else ["git"]
+        if step == "add":
+            k = a.index("-b")
+            _real_run([*pre, "branch", a[k + 1], a[k + 3]], capture_output=True)
+        elif step == "remove":
+            loc = a[-1]
+            out = _real_run([*pre, "worktree", "list", "--porcelain"], capture_output=True, text=True).stdout
+            reg = next((w for w in parse_worktrees(out) if os.path.realpath(w["path"]) == os.path.realpath(loc)), None)
+            forced = "--force" in a or "-f" in a
+            if reg and not reg["locked"] and os.path.isdir(loc) and (forced or not dir_dirty(loc)):
+                shutil.rmtree(loc)
 
     @staticmethod
     def _failed(kind, args, kwargs, res):
@@ -700,17 +788,30 @@ class SubprocessProxy:
 
 @contextlib.contextmanager
 def injected(ctrl):
+    """Seams: every binding of the subprocess module / its entry points inside _griffe.git (git calls); os.mkdir and
+    shutil.rmtree for directories directly under TMPDIR (however the code creates and removes its temporary directory:
+    TemporaryDirectory, mkdtemp + rmtree, ...); two loader stages."""
     import _griffe.git as gg
     import _griffe.loader as gl
-    if not hasattr(gg, "subprocess") or not hasattr(gg, "TemporaryDirectory"):
-        raise RuntimeError("_griffe.git no longer exposes `subprocess` / `TemporaryDirectory`: the injection seam is gone")
-    saved = (gg.subprocess, gg.TemporaryDirectory, gl.GriffeLoader._post_load, gl.GriffeLoader.resolve_aliases)
-    real_td = gg.TemporaryDirectory
+    proxy = SubprocessProxy(ctrl)
+    entry = {subprocess.run: proxy.run, subprocess.check_output: proxy.check_output, subprocess.check_call: proxy.check_call}
+    saved_names = {}
+    for name, val in list(vars(gg).items()):
+        if val is subprocess:
+            saved_names[name] = val
+            setattr(gg, name, proxy)
+        elif callable(val) and val in entry:
+            saved_names[name] = val
+            setattr(gg, name, entry[val])
+    if not saved_names:
+        raise RuntimeError("_griffe.git binds neither `subprocess` nor one of its entry points: the injection seam for git calls is gone")
+    saved = (os.mkdir, shutil.rmtree, gl.GriffeLoader._post_load, gl.GriffeLoader.resolve_aliases)
 
-    def temporary_directory(*a, **k):
-        if ctrl.mkdtemp_plans.get(ctrl.phase):
-            raise OSError(28, "injected: no space left on device")
-        return real_td(*a, **k)
+    def mkdir(path, *a, **k):
+        return ctrl.mkdir(saved[0], path, *a, **k)
+
+    def rmtree(path, *a, **k):
+        return ctrl.rmtree(saved[1], path, *a, **k)
 
     def post_load(self, *a, **k):
         ctrl.point("stage:post_load")
@@ -720,14 +821,16 @@ def injected(ctrl):
         ctrl.point("stage:resolve_aliases")
         return saved[3](self, *a, **k)
 
-    gg.subprocess = SubprocessProxy(ctrl)
-    gg.TemporaryDirectory = temporary_directory
+    os.mkdir = mkdir
+    shutil.rmtree = rmtree
     gl.GriffeLoader._post_load = post_load
     gl.GriffeLoader.resolve_aliases = resolve_aliases
     try:
         yield
     finally:
-        gg.subprocess, gg.TemporaryDirectory, gl.GriffeLoader._post_load, gl.GriffeLoader.resolve_aliases = saved
+        os.mkdir, shutil.rmtree, gl.GriffeLoader._post_load, gl.GriffeLoader.resolve_aliases = saved
+        for name, val in saved_names.items():
+            setattr(gg, name, val)
 
 
 def make_extension(ctrl):
@@ -819,13 +922,114 @@ def check_returned_object(repo, obj, ref_idx, env):
     return problems
 
 
+# ---- returned objects after the checkout is gone: contents against `git show`, and no access to the removed checkout
+
+_AUDIT = {"installed": False, "on": False, "root": "", "hits": []}
+
+
+def _audit_hook(event, args):
+    if not _AUDIT["on"] or event not in ("open", "os.listdir", "os.scandir") or not args:
+        return
+    try:
+        path = os.fsdecode(args[0]) if isinstance(args[0], (str, bytes, os.PathLike)) else ""
+    except Exception:  # noqa: BLE001
+        return
+    if path.startswith(_AUDIT["root"]):
+        _AUDIT["hits"].append(f"{event} {path}")
+
+
+@contextlib.contextmanager
+def fs_audit(root):
+    """Records every open / listdir / scandir below `root` (the TMPDIR of the run) made while the block runs."""
+    if not _AUDIT["installed"]:
+        sys.addaudithook(_audit_hook)       # audit hooks cannot be removed: installed once, gated by _AUDIT["on"]
+        _AUDIT["installed"] = True
+    _AUDIT.update(on=True, root=str(root), hits=[])
+    try:
+        yield _AUDIT["hits"]
+    finally:
+        _AUDIT["on"] = False
+
+
+def iter_objects(obj, seen=None):
+    """Every module, class, function and attribute reachable through non-alias members, each once."""
+    seen = set() if seen is None else seen
+    if id(obj) in seen:
+        return
+    seen.add(id(obj))
+    yield obj
+    for m in list(obj.members.values()):
+        if not m.is_alias:
+            yield from iter_objects(m, seen)
+
+
+def audit_returned(gitdir, ref, obj, env):
+    """After load_git has returned: for every module of the returned tree (statically or dynamically analysed) `.lines` /
+    `.source` must be the text git holds for that reference (`git show <ref>:<path>`), every object with a line span must
+    give exactly that slice, and none of it may touch the file system below TMPDIR (the checkout is gone: whatever is
+    read from there now is read lazily). Returns (problems, lines queries for the model, statistics)."""
+    problems, queries, stats = [], [], {"modules": 0, "objects": 0, "spans": 0}
+    shown = {}
+    with fs_audit(env.tmp) as hits:
+        for o in iter_objects(obj):
+            try:
+                fp = o.filepath
+            except Exception as e:  # noqa: BLE001
+                problems.append({"object": o.path, "filepath raised": type(e).__name__})
+                continue
+            if isinstance(fp, list) or fp is None:
+                continue
+            rel = os.path.relpath(str(fp), env.tmp).split(os.sep)
+            if rel[0] == ".." or len(rel) < 3:
+                problems.append({"object": o.path, "filepath not inside a checkout under TMPDIR": str(fp)})
+                continue
+            relpath = "/".join(rel[2:])
+            if relpath not in shown:
+                pr = git(gitdir, "show", f"{ref}:{relpath}", check=False)
+                shown[relpath] = pr.stdout.splitlines() if pr.returncode == 0 else None
+            want_all = shown[relpath]
+            if want_all is None:
+                problems.append({"object": o.path, "file unknown to git at that reference": relpath})
+                continue
+            try:
+                if o.is_module:
+                    stats["modules"] += 1
+                    if os.path.lexists(str(fp)):
+                        problems.append({"module": o.path, "checkout file still exists": str(fp)})
+                    want = want_all
+                    span = (0, 0)
+                else:
+                    stats["objects"] += 1
+                    if o.lineno is None or o.endlineno is None:
+                        continue
+                    stats["spans"] += 1
+                    want = want_all[o.lineno - 1:o.endlineno]
+                    span = (o.lineno, o.endlineno)
+                got = list(o.lines)
+                if got != want:
+                    problems.append({"object": o.path, "kind": o.kind.value, "lines": got[:3], "expected (git show)": want[:3], "n": [len(got), len(want)]})
+                elif o.source != textwrap.dedent("\n".join(want)):
+                    problems.append({"object": o.path, "source differs from git show": o.source[:80]})
+                if len(queries) < 12 and all(s.isascii() for s in want_all):
+                    queries.append((["lines", rel[:2], [[rel[2:], want_all]], rel[2:], span[0], span[1]], got, o.path))
+            except Exception as e:  # noqa: BLE001
+                problems.append({"object": o.path, "raised": type(e).__name__, "message": str(e)[:120]})
+        lazy = sorted(set(hits))
+    if lazy:
+        problems.append({"what": "the returned objects read below TMPDIR after load_git returned (the checkout is gone: a lazy reference to it)",
+                         "accesses": lazy[:4]})
+    if not stats["modules"]:
+        problems.append("no module with a file path in the returned tree")
+    return problems, queries, stats
+
+
 def run_load_case(env, repo: Repo, case):
     """Runs griffe.load_git once under the case's fault plan. Returns the record used by all comparisons."""
     import griffe
     ref, package = case["ref"], case["package"]
     F = case["faults"]
     git_plan = {step: F[i] for step, i in STEP_INDEX.items()}
-    ctrl = Control(env, {1: git_plan}, {1: {int(k): v for k, v in case["events"].items()}}, {1: F[1]})
+    ctrl = Control(env, {1: git_plan}, {1: {int(k): v for k, v in case["events"].items()}}, {1: F[1]}, {1: F[RMTREE]})
     before = observe(repo)
     before_abs = abstract(repo, before)
     os.chdir(repo.path)
@@ -855,10 +1059,13 @@ def run_load_case(env, repo: Repo, case):
     after = observe(repo)
     after_abs = abstract(repo, after)
     rec = {"case": case, "before": before, "after": after, "before_abs": before_abs, "after_abs": after_abs, "outcome": outcome,
-           "pid": pid, "ctrl": ctrl, "obj_problems": [], "n_points": len(ctrl.points.get(1, []))}
-    if obj is not None and package == PKG and outcome[1] < len(repo.commits) and not inspect_mode:
+           "pid": pid, "ctrl": ctrl, "obj_problems": [], "n_points": len(ctrl.points.get(1, [])), "lines_queries": [], "audit": None}
+    if obj is not None and package == PKG and outcome[1] < len(repo.commits):
         try:
-            rec["obj_problems"] = check_returned_object(repo, obj, outcome[1], env)
+            if not inspect_mode:
+                rec["obj_problems"] = check_returned_object(repo, obj, outcome[1], env)
+            probs, rec["lines_queries"], rec["audit"] = audit_returned(repo.path, repo.commits[outcome[1]]["sha"], obj, env)
+            rec["obj_problems"] += probs
         except Exception as e:  # noqa: BLE001
             rec["obj_problems"] = [f"{type(e).__name__}: {e}"]
     return rec
@@ -868,7 +1075,7 @@ def model_input_load(repo, rec, isrepo=True):
     case = rec["case"]
     plan = {int(k): v for k, v in case["events"].items()}
     n = case.get("n_points", 0)
-    return ["load_git", True, isrepo, rec["before_abs"], case["faults"], rec["pid"], case["ref"], repo.tree(case["package"]),
+    return ["load_git", GUARD, True, isrepo, rec["before_abs"], case["faults"], rec["pid"], case["ref"], repo.tree(case["package"]),
             events_for_model(plan, n)]
 
 
@@ -886,11 +1093,14 @@ def judge_load(ctx, repo, rec, mout, label):
     ctx.case(cj, nontrivial)
     ctx.observe("load.stream", label)
     ctx.observe("load.outcome", ":".join(map(str, rec["outcome"])) if rec["outcome"][0] == "raised" else "returned")
-    for step, i in STEP_INDEX.items():
+    for step, i in list(STEP_INDEX.items()) + [("rmtree", RMTREE)]:
         if case["faults"][i] != OK:
-            ctx.observe("load.fault", f"{step}:{case['faults'][i][0]}")
+            ctx.observe("load.fault", f"{step}:{case['faults'][i][0]}" + ("+exc" if case["faults"][i][0] == "torn" and len(case["faults"][i]) > 1 else ""))
     if case["faults"][1]:
         ctx.observe("load.fault", "mkdtemp")
+    if case["faults"][RMTREE] != OK and ctrl.tmp_names.get(1) and not any(ph == 1 for ph, _ in ctrl.rmtree_calls):
+        ctx.tie_failure("correspondence", "removal of the temporary directory", "the temporary directory was created but no shutil.rmtree of it was "
+                        "observed: the planned fault on its removal could not be placed (the model removes it on every exit)", cj)
     for a in case["events"].values():
         ctx.observe("load.event", a[0] + (":" + a[1] if len(a) > 1 else ""))
     if ctrl.unknown:
@@ -926,20 +1136,40 @@ def judge_load(ctx, repo, rec, mout, label):
                             {"diff": state_diff(canon_state(mstate), rec["after_abs"]), "outcome": rec["outcome"]}, cj)
         if mres != rec["outcome"]:
             ctx.tie_failure("correspondence", "load_git outcome (model) vs griffe.load_git", {"model": mres, "impl": rec["outcome"]}, cj)
-    if rec["after"]["tmp"] != rec["before"]["tmp"]:
-        ctx.property_failure(cj, {"what": "temporary directory left behind", "tmp": rec["after"]["tmp"]})
+    # a directory left in TMPDIR is a failure on every path but one: its removal itself was made to fail
+    rm_failed = case["faults"][RMTREE][0] in ("raise-before", "torn")
+    tmp_left = rec["after"]["tmp"] != rec["before"]["tmp"]
+    if tmp_left and not rm_failed:
+        ctx.property_failure(cj, {"what": "temporary directory left behind", "tmp": rec["after"]["tmp"], "outcome": rec["outcome"]})
+    elif tmp_left:
+        ctx.count("excluded_rmtree_fault_residue")
     main_changed = {k: v for k, v in changed.items() if k in MAIN_KEYS}
     if main_changed:
         ctx.property_failure(cj, {"what": "main worktree touched", "diff": main_changed})
-    if changed and not main_changed and rec["after"]["tmp"] == rec["before"]["tmp"]:
-        if cls == "benign":
-            ctx.property_failure(cj, {"what": "repository not restored", "diff": changed, "outcome": rec["outcome"]})
+    repo_changed = {k: v for k, v in changed.items() if k != "tmp"}
+    if repo_changed and not main_changed and not (tmp_left and not rm_failed):
+        if cls == "benign" or (cls == "excluded-rmtree-fault" and py_classify(rec["before_abs"], case["ref"], case["faults"][:RMTREE] + [OK], True) == "benign"):
+            ctx.property_failure(cj, {"what": "repository not restored", "diff": repo_changed, "outcome": rec["outcome"]})
         elif cls == "gap-add-after":
-            ctx.property_failure(cj, {"what": "repository not restored", "diff": changed}, finding="C20-F2")
+            # known finding F2 -- attributed only when the faithful model reproduces the very same residue
+            if mout is None or canon_state(mout[0]) == rec["after_abs"]:
+                ctx.property_failure(cj, {"what": "repository not restored", "diff": repo_changed}, finding="C20-F2")
+            else:
+                ctx.property_failure(cj, {"what": "repository not restored, and not the way finding C20-F2 leaves it", "diff": repo_changed,
+                                          "model": state_diff(canon_state(mout[0]), rec["after_abs"])})
         else:
             ctx.count("excluded_cleanup_fault_residue")
     if rec["obj_problems"]:
         ctx.property_failure(cj, {"what": "returned object not self-contained after cleanup", "problems": rec["obj_problems"][:4]})
+    if rec["audit"]:
+        ctx.observe("load.audited", ("inspected" if case.get("inspect") else "static") + f":modules={rec['audit']['modules']}:spans={'some' if rec['audit']['spans'] else 'none'}")
+    if rec["lines_queries"] and mout is not None:
+        # the lines model (visit_files, obj_lines / obj_source on the EMPTY file system) against what the objects give
+        for (q, got, path), m in zip(rec["lines_queries"], ctx.model([q for q, _, _ in rec["lines_queries"]])):
+            ctx.count("lines_queries")
+            if m != got:
+                ctx.tie_failure("correspondence", "obj_lines / obj_source (model, file system without the checkout) vs Object.lines after load_git returned",
+                                {"object": path, "span": q[4:], "model": m[:3], "impl": got[:3]}, cj)
     if rec["outcome"] == ["raised", "HarnessTimeout"]:
         ctx.tie_failure("harness", "watchdog", "load_git did not return", cj)
     ctx.count("load_cases")
@@ -974,26 +1204,47 @@ def load_case(ref, package=PKG, faults=None, events=None, n_points=0, **kw):
 
 FAULT_KINDS = [["fail-before"], ["fail-after"], ["raise-before", "Injected"], ["raise-before", "KeyboardInterrupt"],
                ["raise-after", "Injected"], ["raise-after", "KeyboardInterrupt"]]
+TORN_KINDS = [["torn"], ["torn", "KeyboardInterrupt"], ["torn", "Injected"]]        # add and remove only: the calls with two halves
+RM_KINDS = [[k, e] for k in ("raise-before", "torn", "raise-after") for e in ("OSError", "KeyboardInterrupt")]
+GIT_STEPS = [s for s in STEP_INDEX if GUARD or s != "list"]                          # `branch --list` exists in the repaired variant only
 
 
-def fault_kinds(i, full):
+def fault_kinds(step, full):
+    i = STEP_INDEX[step]
+    torn = TORN_KINDS if step in ("add", "remove") else []
     if full:
-        return FAULT_KINDS
+        return FAULT_KINDS + torn
     e1, e2 = ("Injected", "KeyboardInterrupt") if i % 2 else ("KeyboardInterrupt", "Injected")
-    return [["fail-before"], ["fail-after"], ["raise-before", e1], ["raise-after", e2]]
+    return [["fail-before"], ["fail-after"], ["raise-before", e1], ["raise-after", e2]] + torn[:2]
 
 
 def single_fault_cases(ref, n_points, rng, full):
-    """Every single-fault placement on the git calls, with a clean and with a dirty body."""
+    """Every single-fault placement on the git calls and on the removal of the temporary directory, with a clean and with a dirty body."""
     out = []
-    for step, i in STEP_INDEX.items():
-        for fk in fault_kinds(i, full):
+    for step in GIT_STEPS:
+        for fk in fault_kinds(step, full):
             for dirty in (False, True):
-                F = [OK, False, OK, OK, OK]
-                F[i] = fk
                 ev = {rng.randrange(n_points): ["write"]} if dirty and n_points else {}
-                out.append(load_case(ref, faults=F, events=ev, n_points=n_points))
-    out.append(load_case(ref, faults=[OK, True, OK, OK, OK], n_points=n_points))
+                out.append(load_case(ref, faults=faults(**{step: fk}), events=ev, n_points=n_points))
+    for k, fk in enumerate(RM_KINDS):
+        if full or k % 2 == 0 or fk[0] == "torn":
+            ev = {rng.randrange(n_points): ["write"]} if k % 2 and n_points else {}
+            out.append(load_case(ref, faults=faults(rmtree=fk), events=ev, n_points=n_points))
+    out.append(load_case(ref, faults=faults(mkdtemp=True), n_points=n_points))
+    return out
+
+
+def pair_fault_cases(ref, n_points, rng):
+    """Two faults at once where the second decides what the first leaves: a fault on `worktree add` / on a cleanup call
+    together with a failing removal of the temporary directory, and a torn call followed by a failing cleanup call."""
+    out = []
+    for add in (["fail-after"], ["torn", "KeyboardInterrupt"], ["fail-before"]):
+        out.append(load_case(ref, faults=faults(add=add, rmtree=rng.choice(RM_KINDS)), n_points=n_points))
+    for rm in (["torn"], ["fail-before"], ["raise-after", "Injected"]):
+        out.append(load_case(ref, faults=faults(remove=rm, rmtree=rng.choice(RM_KINDS)), n_points=n_points))
+    out.append(load_case(ref, faults=faults(remove=["torn"], branchD=["fail-before"]), n_points=n_points))
+    out.append(load_case(ref, faults=faults(add=["torn"], remove=["raise-before", "Injected"]), n_points=n_points))
+    out.append(load_case(ref, faults=faults(branchD=["fail-before"], rmtree=["raise-before", "OSError"]), events={0: ["write"]} if n_points else {}, n_points=n_points))
     return out
 
 
@@ -1007,16 +1258,21 @@ def event_cases(ref, n_points, indices):
     return out
 
 
-def random_fault(rng, p=0.25):
+def random_fault(rng, p=0.25, torn=False):
     if rng.random() > p:
         return OK
-    return list(rng.choice(FAULT_KINDS))
+    return list(rng.choice(FAULT_KINDS + (TORN_KINDS if torn else [])))
+
+
+def random_rmfault(rng, p=0.08):
+    return list(rng.choice(RM_KINDS)) if rng.random() < p else OK
 
 
 def random_load_case(rng, repo, n_points_by_commit):
     ref, k = rng.choice(repo.ref_pool())
     package = PKG if rng.random() < 0.9 else ABSENT_PKG
-    F = [random_fault(rng, 0.1), rng.random() < 0.05, random_fault(rng, 0.2), random_fault(rng), random_fault(rng)]
+    F = [random_fault(rng, 0.1), rng.random() < 0.05, random_fault(rng, 0.1) if GUARD else OK, random_fault(rng, 0.2, torn=True),
+         random_fault(rng, torn=True), random_fault(rng), random_rmfault(rng)]
     n = n_points_by_commit.get(k, 0) if package == PKG else 0
     ev = {}
     for _ in range(rng.choice([0, 0, 1, 1, 2, 3])):
@@ -1033,7 +1289,7 @@ def run_check_case(env, repo: Repo, case):
     plans = {0: {"tag": case["f_tag"], "root": case["f_root"]},
              1: {step: F1[i] for step, i in STEP_INDEX.items()}, 2: {step: F2[i] for step, i in STEP_INDEX.items()}}
     ctrl = Control(env, plans, {1: {int(k): v for k, v in case["events1"].items()}, 2: {int(k): v for k, v in case["events2"].items()}},
-                   {1: F1[1], 2: F2[1]})
+                   {1: F1[1], 2: F2[1]}, {1: F1[RMTREE], 2: F2[RMTREE]})
     before = observe(repo)
     before_abs = abstract(repo, before)
     os.chdir(repo.path)
@@ -1073,7 +1329,7 @@ def model_input_check(repo, rec):
     ev2 = events_for_model({int(k): v for k, v in c["events2"].items()}, c.get("n2", 0))
     args = [[c["against"]] if c["against"] else [], [repo.latest_tag] if repo.latest_tag else [], [c["base"]] if c["base"] else [],
             repo.work["kind"], repo.head_idx, c["f_tag"], c["f_root"], False, c["F1"], c["F2"], rec["p1"], rec["p2"], ev1, ev2]
-    return ["check", True, True, rec["before_abs"], args, repo.tree(PKG), repo.breaking_table()]
+    return ["check", GUARD, True, True, rec["before_abs"], args, repo.tree(PKG), repo.breaking_table()]
 
 
 def expected_locations(repo):
@@ -1102,15 +1358,22 @@ def judge_check(ctx, repo, rec, mout):
                             {"diff": state_diff(canon_state(mstate), rec["after_abs"]), "outcome": rec["outcome"]}, cj)
         if mres != rec["outcome"]:
             ctx.tie_failure("correspondence", "check outcome (model) vs _griffe.cli.check", {"model": mres, "impl": rec["outcome"], "stderr": rec["stderr"][-300:]}, cj)
-    if rec["after"]["tmp"] != rec["before"]["tmp"]:
+    rm_failed = any(F[RMTREE][0] in ("raise-before", "torn") for F in (c["F1"], c["F2"]))
+    tmp_left = rec["after"]["tmp"] != rec["before"]["tmp"]
+    repo_changed = {k: v for k, v in changed.items() if k != "tmp"}
+    if tmp_left and not rm_failed:
         ctx.property_failure(cj, {"what": "temporary directory left behind by check", "tmp": rec["after"]["tmp"]})
-    elif changed:
+    elif repo_changed:
+        excl = ("excluded-cleanup-fault", "excluded-rmtree-fault")
         if any(k in MAIN_KEYS for k in changed):
             ctx.property_failure(cj, {"what": "main worktree touched by check", "diff": changed})
         elif cls1 == "benign" and cls2 == "benign":
-            ctx.property_failure(cj, {"what": "repository not restored by check", "diff": changed, "outcome": rec["outcome"]})
-        elif "gap-add-after" in (cls1, cls2) and "excluded-cleanup-fault" not in (cls1, cls2):
-            ctx.property_failure(cj, {"what": "repository not restored by check", "diff": changed}, finding="C20-F2")
+            ctx.property_failure(cj, {"what": "repository not restored by check", "diff": repo_changed, "outcome": rec["outcome"]})
+        elif "gap-add-after" in (cls1, cls2) and cls1 not in excl and cls2 not in excl:
+            if mout is None or canon_state(mout[0]) == rec["after_abs"]:
+                ctx.property_failure(cj, {"what": "repository not restored by check", "diff": repo_changed}, finding="C20-F2")
+            else:
+                ctx.property_failure(cj, {"what": "repository not restored by check, and not the way finding C20-F2 leaves it", "diff": repo_changed})
     # exit code against the construction oracle, when nothing was injected
     if not faulted and against:
         ko = repo.loadable(against)
@@ -1138,8 +1401,10 @@ def random_check_case(rng, repo, n_points_by_commit, faulty):
     against, ka = pick() if rng.random() < 0.75 else (None, repo.loadable(repo.latest_tag))
     base, kb = pick() if rng.random() < 0.75 else (None, repo.head_idx)
     fz = lambda p: random_fault(rng, p) if faulty else OK  # noqa: E731
-    F1 = [fz(0.05), faulty and rng.random() < 0.03, fz(0.12), fz(0.15), fz(0.15)]
-    F2 = [fz(0.05), faulty and rng.random() < 0.03, fz(0.12), fz(0.15), fz(0.15)]
+    fzt = lambda p: random_fault(rng, p, torn=True) if faulty else OK  # noqa: E731
+    frm = lambda: random_rmfault(rng, 0.05) if faulty else OK  # noqa: E731
+    F1 = [fz(0.05), faulty and rng.random() < 0.03, fz(0.05) if GUARD else OK, fzt(0.12), fzt(0.15), fz(0.15), frm()]
+    F2 = [fz(0.05), faulty and rng.random() < 0.03, fz(0.05) if GUARD else OK, fzt(0.12), fzt(0.15), fz(0.15), frm()]
     n1, n2 = n_points_by_commit.get(ka, 0), n_points_by_commit.get(kb, 0)
     ev1, ev2 = {}, {}
     if faulty:
@@ -1204,6 +1469,246 @@ def run_cli(ctx, env, repo, against, base):
     ctx.count("cli_cases")
 
 
+# --------------------------------------------------------------------------------------------- end-to-end CLI with faults at the process boundary
+
+SHIM = r"""#!/bin/sh
+# Stands in for `git` on PATH while `python -m griffe check` runs end to end: a plan file says which git call of which
+# load (phase) fails, is interrupted (SIGINT to the calling Python process, i.e. a real Ctrl-C) or is torn.
+REAL="$C20_REAL_GIT"
+PLAN="$C20_SHIM_PLAN"
+if [ -z "$PLAN" ] || [ ! -f "$PLAN" ]; then exec "$REAL" "$@"; fi
+w1=""; w2=""; skip=0; repo="."; takec=0; last=""; nb=0; b=""; loc=""
+for a in "$@"; do
+  last="$a"
+  if [ $nb -eq 2 ]; then loc="$a"; nb=0; fi
+  if [ $nb -eq 1 ]; then b="$a"; nb=2; fi
+  if [ "$a" = "-b" ]; then nb=1; fi
+  if [ $takec -eq 1 ]; then repo="$a"; takec=0; continue; fi
+  if [ $skip -eq 1 ]; then skip=0; continue; fi
+  if [ -z "$w1" ] && [ "$a" = "-C" ]; then takec=1; continue; fi
+  if [ -z "$w1" ] && [ "$a" = "-c" ]; then skip=1; continue; fi
+  if [ -z "$w1" ]; then w1="$a"; continue; fi
+  if [ -z "$w2" ]; then w2="$a"; fi
+done
+case "$w1 $w2" in
+  "rev-parse --is-inside-work-tree") step=assert;;
+  "rev-parse --show-toplevel") step=root;;
+  "worktree add") step=add;;
+  "worktree remove") step=remove;;
+  "branch -D") step=branchD;;
+  "branch --list") step=list;;
+  "tag -l") step=tag;;
+  *) step="unknown:$w1-$w2";;
+esac
+phase=$(cat "$PLAN.phase" 2>/dev/null || echo 0)
+if [ "$step" = assert ]; then phase=$((phase + 1)); echo $phase > "$PLAN.phase"; fi
+p=$phase
+if [ "$step" = tag ] || [ "$step" = root ]; then p=0; fi
+if [ "$step" != add ]; then loc="$last"; fi
+echo "$phase $step $loc" >> "$PLAN.log"
+line=$(grep "^$p $step " "$PLAN" | head -1)
+set -- "$@"
+fault=$(echo "$line" | cut -d' ' -f3)
+exc=$(echo "$line" | cut -d' ' -f4)
+interrupt() { kill -INT $PPID; sleep 5; exit 130; }
+case "$fault" in
+  "") exec "$REAL" "$@";;
+  fail-before) exit 1;;
+  fail-after) "$REAL" "$@" >/dev/null 2>&1; exit 1;;
+  raise-before) interrupt;;
+  raise-after) "$REAL" "$@" >/dev/null 2>&1; interrupt;;
+  torn)
+    if [ "$step" = add ]; then
+      "$REAL" -C "$repo" branch "$b" "$last" >/dev/null 2>&1
+    elif [ "$step" = remove ]; then
+      if "$REAL" -C "$repo" worktree list --porcelain | awk -v loc="$last" '$1=="worktree"{cur=($2==loc)} cur&&$1=="locked"{l=1} $1=="worktree"&&$2==loc{f=1} END{exit !(f&&!l)}'; then
+        rm -rf "$last"
+      fi
+    fi
+    if [ -n "$exc" ]; then interrupt; fi
+    exit 1;;
+  *) exec "$REAL" "$@";;
+esac
+"""
+
+CLI_EXT = r'''"""Extension used by the end-to-end runs: acts at the planned hook indices of each load (phase = number of
+`rev-parse --is-inside-work-tree` calls the git shim has seen so far)."""
+import json, os
+import griffe
+
+_PLAN = json.loads(os.environ.get("C20_EXT_PLAN", "{}"))
+_SEEN = {}
+
+
+def _point():
+    plan_file = os.environ["C20_SHIM_PLAN"]
+    try:
+        phase = open(plan_file + ".phase").read().strip()
+    except OSError:
+        phase = "0"
+    log = open(plan_file + ".log").read().splitlines() if os.path.exists(plan_file + ".log") else []
+    adds = [l.split(" ", 2) for l in log if l.split(" ")[1] == "add"]
+    done = [l for l in log if l.split(" ")[1] == "branchD" and l.split(" ")[0] == phase]
+    if done:                      # hooks after the cleanup of this phase belong to the working-tree load
+        phase = str(int(phase) + 1)
+    idx = _SEEN.get(phase, 0)
+    _SEEN[phase] = idx + 1
+    action = _PLAN.get(phase, {}).get(str(idx))
+    with open(plan_file + ".points", "a") as fh:
+        fh.write(f"{phase} {idx}\n")
+    if not action or action[0] == "step":
+        return
+    if action[0] == "write":
+        loc = next((a[2] for a in adds if a[0] == phase), None)
+        if loc and os.path.isdir(loc):
+            open(os.path.join(loc, f"c20_written_{idx}.txt"), "w").write("left by an extension\n")
+        return
+    raise (KeyboardInterrupt("injected") if action[1] == "KeyboardInterrupt" else RuntimeError("injected"))
+
+
+class C20CliExtension(griffe.Extension):
+    def __getattribute__(self, name):
+        if name.startswith("on_"):
+            return lambda *a, **k: _point()
+        return object.__getattribute__(self, name)
+'''
+
+SHIM_FAULTS = [["fail-before"], ["fail-after"], ["raise-before", "KeyboardInterrupt"], ["raise-after", "KeyboardInterrupt"]]
+SHIM_TORN = [["torn"], ["torn", "KeyboardInterrupt"]]
+
+
+def random_cli_fault_case(rng, repo, n_points_by_commit):
+    """A `python -m griffe check` run with faults the git shim / the CLI extension can place: non-zero exit, SIGINT, torn."""
+    good = [(r, k) for r, k in repo.ref_pool() if k is not None and repo.commits[k]["kind"] == "package"]
+    pool = repo.ref_pool()
+    pick = (lambda: rng.choice(good)) if good and rng.random() < 0.8 else (lambda: rng.choice(pool))
+    against, ka = pick() if rng.random() < 0.8 else (None, repo.loadable(repo.latest_tag))
+    base, kb = pick() if rng.random() < 0.7 else (None, repo.head_idx)
+
+    def fz(step, p):
+        if rng.random() > p:
+            return OK
+        return list(rng.choice(SHIM_FAULTS + (SHIM_TORN if step in ("add", "remove") else [])))
+    F1 = faults(**{"assert": fz("assert", 0.05), "add": fz("add", 0.25), "remove": fz("remove", 0.2), "branchD": fz("branchD", 0.2)})
+    F2 = faults(**{"assert": fz("assert", 0.05), "add": fz("add", 0.2), "remove": fz("remove", 0.2), "branchD": fz("branchD", 0.2)})
+    if GUARD:
+        F1[STEP_INDEX["list"]], F2[STEP_INDEX["list"]] = fz("list", 0.08), fz("list", 0.08)
+    ev1, ev2 = {}, {}
+    for ev, allow_write in ((ev1, True), (ev2, base is not None)):
+        if rng.random() < 0.35:
+            acts = [["raise", "RuntimeError"], ["raise", "KeyboardInterrupt"]] + ([["write"], ["write"]] if allow_write else [])
+            ev[str(rng.randrange(3))] = rng.choice(acts)
+    return {"against": against, "base": base, "F1": F1, "F2": F2, "f_tag": fz("tag", 0.15) if against is None else OK, "f_root": fz("root", 0.05),
+            "events1": ev1, "events2": ev2, "n1": 0, "n2": 0}
+
+
+def run_cli_fault_case(ctx, env, repo, case):
+    shim_dir = env.root / "shim"
+    shim_dir.mkdir(exist_ok=True)
+    shim = shim_dir / "git"
+    if not shim.exists():
+        shim.write_text(SHIM)
+        shim.chmod(0o755)
+        (shim_dir / "c20_cli_ext.py").write_text(CLI_EXT)
+    plan = shim_dir / "plan"
+    for f in shim_dir.glob("plan*"):
+        f.unlink()
+    lines = []
+    for step in ("tag", "root"):
+        if case["f_" + step] != OK:
+            lines.append(f"0 {step} {' '.join(case['f_' + step])}")
+    for ph, F in ((1, case["F1"]), (2, case["F2"])):
+        for step, i in STEP_INDEX.items():
+            if F[i] != OK:
+                lines.append(f"{ph} {step} {' '.join(F[i])}")
+    plan.write_text("\n".join(lines) + "\n")
+    before = observe(repo)
+    before_abs = abstract(repo, before)
+    cmd = [sys.executable, "-m", "griffe", "check", PKG, "-s", repo.layout, "-e", str(shim_dir / "c20_cli_ext.py")]
+    if case["against"]:
+        cmd += ["-a", case["against"]]
+    if case["base"]:
+        cmd += ["-b", case["base"]]
+    real_git = shutil.which("git")
+    e = dict(os.environ, NO_COLOR="1", PATH=f"{shim_dir}{os.pathsep}{os.environ.get('PATH', '')}", C20_REAL_GIT=real_git, C20_SHIM_PLAN=str(plan),
+             C20_EXT_PLAN=json.dumps({"1": case["events1"], "2": case["events2"]}))
+    p = _real_run(cmd, cwd=repo.path, capture_output=True, text=True, timeout=120, env=e)
+    log = [l.split(" ", 2) for l in (plan.parent / "plan.log").read_text().splitlines()] if (plan.parent / "plan.log").exists() else []
+    p1, p2 = repo.fresh_pid(), repo.fresh_pid()
+    for ph, pid in (("1", p1), ("2", p2)):
+        loc = next((l[2] for l in log if l[0] == ph and l[1] == "add"), None)
+        if loc:
+            repo.bind_tmp(os.path.relpath(loc, env.tmp).split(os.sep)[0], pid)
+    after = observe(repo)
+    unknown = sorted({l[1] for l in log if l[1].startswith("unknown")})
+    return {"case": case, "before": before, "after": after, "before_abs": before_abs, "after_abs": abstract(repo, after), "rc": p.returncode,
+            "stderr": p.stderr, "p1": p1, "p2": p2, "unknown": unknown, "log": log}
+
+
+def judge_cli_fault(ctx, repo, rec, mout):
+    c = rec["case"]
+    cj = dict(c, repo=repo.spec(), kind="cli-faults")
+    ctx.case(cj, True)
+    for F in (c["F1"], c["F2"]):
+        for step, i in STEP_INDEX.items():
+            if F[i] != OK:
+                ctx.observe("cli.fault", f"{step}:{'+'.join(F[i][:1])}{'+sigint' if F[i][0] == 'torn' and len(F[i]) > 1 else ''}")
+    for ev in (c["events1"], c["events2"]):
+        for a in ev.values():
+            ctx.observe("cli.event", ":".join(a))
+    ctx.observe("cli.fault_exit", rec["rc"])
+    if rec["unknown"]:
+        ctx.tie_failure("correspondence", "git call not in the modelled protocol (end to end)", rec["unknown"][:5], cj)
+    changed = diff_obs(rec["before"], rec["after"])
+    against = c["against"] or repo.latest_tag
+    cls1 = py_classify(rec["before_abs"], against, c["F1"], True) if against else "benign"
+    cls2 = py_classify(rec["before_abs"], c["base"], c["F2"], True) if c["base"] else "benign"
+    if mout is not None:
+        mstate, mres = mout
+        if canon_state(mstate) != rec["after_abs"]:
+            ctx.tie_failure("correspondence", "check final state (model) vs repository after `python -m griffe check` with faults at the process boundary",
+                            {"diff": state_diff(canon_state(mstate), rec["after_abs"]), "rc": rec["rc"], "stderr": rec["stderr"][-300:]}, cj)
+        ok = (rec["rc"] == mres[1]) if mres[0] == "returned" else (rec["rc"] != 0)
+        if not ok:
+            ctx.tie_failure("correspondence", "exit code of `python -m griffe check` vs check outcome (model)",
+                            {"model": mres, "rc": rec["rc"], "stderr": rec["stderr"][-300:]}, cj)
+    if rec["after"]["tmp"] != rec["before"]["tmp"]:
+        ctx.property_failure(cj, {"what": "temporary directory left behind by python -m griffe check", "tmp": rec["after"]["tmp"], "rc": rec["rc"]})
+    elif changed:
+        if any(k in MAIN_KEYS for k in changed):
+            ctx.property_failure(cj, {"what": "main worktree touched by python -m griffe check", "diff": changed})
+        elif cls1 == "benign" and cls2 == "benign":
+            ctx.property_failure(cj, {"what": "repository not restored by python -m griffe check", "diff": changed, "rc": rec["rc"], "stderr": rec["stderr"][-300:]})
+        elif "gap-add-after" in (cls1, cls2) and "excluded-cleanup-fault" not in (cls1, cls2):
+            if mout is None or canon_state(mout[0]) == rec["after_abs"]:
+                ctx.property_failure(cj, {"what": "repository not restored by python -m griffe check", "diff": changed}, finding="C20-F2")
+            else:
+                ctx.property_failure(cj, {"what": "repository not restored by python -m griffe check, and not the way finding C20-F2 leaves it", "diff": changed})
+    if rec["rc"] == 0 and not mout:
+        pass
+    ctx.count("cli_fault_cases")
+
+
+def run_cli_fault_batch(ctx, env, repo, cases):
+    recs = []
+    for case in cases:
+        rec = run_cli_fault_case(ctx, env, repo, case)
+        recs.append(rec)
+        if diff_obs(rec["before"], rec["after"]):
+            repo.restore()
+    try:
+        mouts = ctx.model([model_input_check(repo, r) for r in recs])
+    except Exception as e:
+        if type(e).__name__ != "ModelUnavailable":
+            raise
+        mouts = [None] * len(recs)
+    for rec, mo in zip(recs, mouts):
+        if mo == ["bad-input"]:
+            ctx.tie_failure("harness", "model rejected the check input", None, rec["case"])
+            mo = None
+        judge_cli_fault(ctx, repo, rec, mo)
+
+
 # --------------------------------------------------------------------------------------------- (O) the model of git vs git
 
 def oracle_sequences(ctx, env, repo, n_seq, length):
@@ -1220,21 +1725,52 @@ def oracle_sequences(ctx, env, repo, n_seq, length):
         bnames = ["griffe-a", "griffe-b", "user/wt0", "main"] + [b for b in repo.base_branches if "/" in b][:1]
         steps, real = [], []
         s0 = o.abstract()
+        good_ref = next((r for r, k in repo.ref_pool() if k is not None and "/" not in r and r not in repo.base_branches), "HEAD")
+        # scripted openings: the situations `worktree add` can meet at its path, each followed by a random continuation
+        scripted = [
+            [["mkdtemp", 1], ["add", "griffe-a", 1, good_ref], ["rmtree", 1], ["mkdtemp", 1], ["add", "griffe-b", 1, good_ref]],          # missing registered
+            [["mkdtemp", 2], ["add", "griffe-a", 2, good_ref], ["lock", 2], ["rmtree", 2], ["mkdtemp", 2], ["add", "griffe-b", 2, good_ref],
+             ["branch-D", "griffe-b"], ["remove", True, 2]],                                                                               # missing, locked
+            [["occupy", 3], ["add", "griffe-a", 3, good_ref], ["add", "griffe-a", 1, good_ref], ["branch-D", "griffe-a"]],                # foreign directory
+            [["mkdtemp", 1], ["add", "griffe-a", 1, good_ref], ["add", "griffe-b", 1, good_ref], ["remove", False, 1], ["branch-D", "griffe-b"]],  # live worktree
+            [["mkdtemp", 1], ["add-torn", "griffe-a", 1, good_ref], ["add", "griffe-a", 1, good_ref], ["remove", True, 1], ["branch-D", "griffe-a"]],
+            [["mkdtemp", 1], ["add", "griffe-a", 1, "nope"], ["add-torn", "griffe-a", 1, "nope"], ["occupy", 1], ["add", "griffe-a", 1, "nope"]],
+        ]
+        for st in (scripted[s] if s < len(scripted) else []):
+            if st[0] in ("add", "add-torn"):
+                ctx.observe("oracle.add_path", "live" if o.loc(st[2]).exists() and o.registered(st[2]) else "foreign-dir" if o.loc(st[2]).exists()
+                            else "missing-registered" if o.registered(st[2]) else "free")
+            steps.append(st)
+            ok = o.apply(st)
+            real.append([ok, o.abstract()])
         for _ in range(length):
             p = rng.randint(1, 3)
             k = rng.random()
             st = None
             live = [q for q in (1, 2, 3) if o.loc(q).exists()]
-            if live and rng.random() < 0.7 and k >= 0.42:
+            if live and rng.random() < 0.7 and k >= 0.47:
                 p = rng.choice(live)                 # aim remove / touch / lock / rmtree at a worktree that exists
+            gone = [q for q in (1, 2, 3) if not o.tdir(q).exists() and o.registered(q)]
             if k < 0.12:
+                if gone and rng.random() < 0.7:
+                    p = rng.choice(gone)             # re-create the parent of a missing registered worktree: the next add meets it
                 if not o.tdir(p).exists():          # mkdtemp never returns a name in use
                     st = ["mkdtemp", p]
             elif k < 0.42:
-                # wt_add is modelled for an unoccupied path only, the only way tmp_worktree calls it (a fresh mkdtemp
-                # directory); on an occupied path real git creates the branch first and then fails
+                # any path whose parent directory exists (the way tmp_worktree calls it: mkdtemp first) or that is not
+                # registered: free, occupied by a foreign directory, a live worktree, a missing registered worktree
+                # (locked or not). With a missing parent git 2.39 registers a second worktree at a registered path.
+                occupied = [q for q in (1, 2, 3) if o.tdir(q).exists() and (o.loc(q).exists() or o.registered(q))]
+                if occupied and rng.random() < 0.35:
+                    p = rng.choice(occupied)
+                if o.tdir(p).exists() or not o.registered(p):
+                    kind = "add-torn" if rng.random() < 0.12 else "add"
+                    st = [kind, rng.choice(bnames[:3]), p, rng.choice(refs)]
+                    ctx.observe("oracle.add_path", "live" if o.loc(p).exists() and o.registered(p) else "foreign-dir" if o.loc(p).exists()
+                                else "missing-registered" if o.registered(p) else "free")
+            elif k < 0.47:
                 if not o.loc(p).exists() and not o.registered(p):
-                    st = ["add", rng.choice(bnames[:3]), p, rng.choice(refs)]
+                    st = ["occupy", p]
             elif k < 0.58:
                 st = ["remove", rng.random() < 0.5, p]
             elif k < 0.68:
@@ -1244,7 +1780,8 @@ def oracle_sequences(ctx, env, repo, n_seq, length):
             elif k < 0.90:
                 st = ["rmtree", p]
             elif k < 0.97:
-                st = ["touch", p]
+                if not o.loc(p).exists() or (o.loc(p) / ".git").exists():     # only a checkout can become dirty
+                    st = ["touch", p]
             else:
                 st = ["lock", p]
             if st is None:
@@ -1293,6 +1830,13 @@ class OracleRepo:
             return True
         if k == "add":
             return git(self.work, "worktree", "add", "-b", st[1], str(self.loc(st[2])), st[3], check=False).returncode == 0
+        if k == "add-torn":        # the first half of `worktree add -b`, as git runs it itself
+            git(self.work, "branch", st[1], st[3], check=False)
+            return False
+        if k == "occupy":
+            self.loc(st[1]).mkdir(parents=True)
+            (self.loc(st[1]) / "somebody-elses-file").write_text("x\n")
+            return True
         if k == "remove":
             a = ["worktree", "remove"] + (["--force"] if st[1] else []) + [str(self.loc(st[2]))]
             return git(self.work, *a, check=False).returncode == 0
@@ -1512,10 +2056,13 @@ def facade_load_case(ctx, env, repo, case):
         try:
             with watchdog(60):
                 obj = griffe.load_git(FAC, ref=case["ref"], repo=str(repo.path), search_paths=["src"], extensions=griffe.load_extensions(make_extension(ctrl)),
-                                      resolve_aliases=True, resolve_external=case["resolve_external"])
+                                      resolve_aliases=True, resolve_external=case["resolve_external"], force_inspection=bool(case.get("inspect")))
             out = "returned"
         except BaseException as e:  # noqa: BLE001
             out = exc_name(e)
+        finally:
+            for name in [m for m in sys.modules if m.split(".")[0] in (FAC, IMPL)]:
+                del sys.modules[name]
     os.chdir(env.cwd)
     after = raw_observe(repo.path, env)
     ctx.case(cj, True)
@@ -1532,7 +2079,10 @@ def facade_load_case(ctx, env, repo, case):
     if out != want:
         ctx.property_failure(cj, {"what": "load_git outcome on the facade layout", "got": out, "expected": want})
     if obj is not None:
-        probs = facade_member_problems(repo, obj, case["ref"], env)
+        probs = [] if case.get("inspect") else facade_member_problems(repo, obj, case["ref"], env)
+        for top in list(obj.modules_collection.members.values()):       # the facade and its private sibling
+            if not top.is_alias and top.name in (FAC, IMPL):
+                probs += audit_returned(repo.path, case["ref"], top, env)[0]
         if probs:
             ctx.property_failure(cj, {"what": "re-exported members not usable after the checkout was removed", "problems": probs[:4]})
     ctx.count("facade_cases")
@@ -1588,6 +2138,7 @@ def facade_checks(ctx, env, repo=None):
         for ext in (None, True):
             facade_load_case(ctx, env, repo, {"ref": ref, "resolve_external": ext})
     facade_load_case(ctx, env, repo, {"ref": "f1", "resolve_external": None, "events": {"2": ["write"]}})
+    facade_load_case(ctx, env, repo, {"ref": "f3", "resolve_external": True, "inspect": True})
     facade_load_case(ctx, env, repo, {"ref": "f2", "resolve_external": True, "events": {"5": ["raise", "Injected"]}})
     for against, base in (("f1", "f2"), ("f2", "f3"), ("f1", None), ("feat/fac", "f3")):
         facade_check_case(ctx, env, repo, against, base, cli_mode=False)
@@ -1722,12 +2273,18 @@ def explore(ctx):
             run_load_batch(ctx, env, repo, event_cases(r, npts[k], idx), "events")
             # the realistic way a checkout gets dirty: dynamic analysis imports the package and CPython writes __pycache__
             r, k = ctx.rng.choice(good)
-            run_load_batch(ctx, env, repo, [load_case(r, events={0: ["write"]}, inspect=True, expect=k)], "inspection-pycache")
+            r2, k2 = ctx.rng.choice(good)
+            run_load_batch(ctx, env, repo, [load_case(r, events={0: ["write"]}, inspect=True, expect=k), load_case(r2, inspect=True, expect=k2, check_pycache=True),
+                                            load_case(r2, faults=faults(remove=["fail-after"], rmtree=["raise-after", "KeyboardInterrupt"]), inspect=True, expect=k2)],
+                           "inspection-pycache")
+            # two faults at once
+            r, k = ctx.rng.choice(good)
+            run_load_batch(ctx, env, repo, pair_fault_cases(r, npts[k], ctx.rng), "pair-fault")
             # events on a reference whose package is absent or broken never fire
             for r2, k2 in pool:
                 if k2 is not None and repo.commits[k2]["kind"] != "package":
                     run_load_batch(ctx, env, repo, [load_case(r2, events={0: ["write"], 1: ["raise", "Injected"]}),
-                                                    load_case(r2, faults=[OK, False, OK, ["fail-before"], OK])], "bad-content")
+                                                    load_case(r2, faults=faults(remove=["fail-before"]))], "bad-content")
                     break
             # 4. random multi-fault schedules
             run_load_batch(ctx, env, repo, [random_load_case(ctx.rng, repo, npts) for _ in range(ctx.budget(30, 200))], "random")
@@ -1736,7 +2293,7 @@ def explore(ctx):
             cc += [random_check_case(ctx.rng, repo, npts, faulty=True) for _ in range(ctx.budget(14, 80))]
             if any(py_normalize(x) == "" for x, _ in pool):       # `@`: the regression case of the repaired finding F4
                 g = ctx.rng.choice(good)[0]
-                cc.append({"against": g, "base": "@", "F1": NO_FAULTS, "F2": NO_FAULTS, "f_tag": OK, "f_root": OK, "events1": {}, "events2": {}, "n1": 0, "n2": 0})
+                cc.append({"against": g, "base": "@", "F1": faults(), "F2": faults(), "f_tag": OK, "f_root": OK, "events1": {}, "events2": {}, "n1": 0, "n2": 0})
             run_check_batch(ctx, env, repo, cc)
             # 6. end to end
             pairs = [(a, b) for a, ka in good for b, kb in good if repo.commits[ka]["kind"] == "package" and repo.commits[kb]["kind"] == "package"]
@@ -1749,6 +2306,15 @@ def explore(ctx):
                 a, _ka = ctx.rng.choice(good if ctx.rng.random() < 0.8 else pool)
                 b, _kb = ctx.rng.choice(good if ctx.rng.random() < 0.8 else pool)
                 run_cli(ctx, env, repo, a if ctx.rng.random() < 0.85 else None, b if ctx.rng.random() < 0.7 else None)
+            # ... and with faults placed at the process boundary (git shim on PATH: exit codes, SIGINT, torn calls; CLI extension)
+            g1, g2 = ctx.rng.choice(good)[0], ctx.rng.choice(good)[0]
+            base_case = {"against": g1, "base": g2, "F1": faults(), "F2": faults(), "f_tag": OK, "f_root": OK, "events1": {}, "events2": {}, "n1": 0, "n2": 0}
+            scripted = [dict(base_case, F1=faults(add=["raise-after", "KeyboardInterrupt"])), dict(base_case, F2=faults(remove=["torn"])),
+                        dict(base_case, F1=faults(branchD=["raise-before", "KeyboardInterrupt"]), events1={"1": ["write"]}),
+                        dict(base_case, base=None, events2={"0": ["raise", "KeyboardInterrupt"]}, F1=faults(remove=["fail-after"]))]
+            if quick:
+                scripted = ctx.rng.sample(scripted, 2)
+            run_cli_fault_batch(ctx, env, repo, scripted + [random_cli_fault_case(ctx.rng, repo, npts) for _ in range(ctx.budget(5, 30))])
             # 7. (O)
             oracle_sequences(ctx, env, repo, ctx.budget(12, 60), ctx.budget(9, 14))
         # the user's own stale, unlocked worktree registration must survive (regression stream of the repaired finding F3)
@@ -1756,9 +2322,10 @@ def explore(ctx):
         spool = [(r, k) for r, k in stale.ref_pool() if k is not None and stale.commits[k]["kind"] == "package"]
         r = spool[0][0]
         scases = [load_case(r), load_case(spool[-1][0], events={3: ["write"]}),
-                  load_case(r, faults=[OK, False, OK, ["fail-after"], OK]), load_case(r, faults=[OK, False, OK, OK, ["raise-after", "Injected"]]),
-                  load_case(r, faults=[OK, False, OK, ["fail-before"], OK]), load_case(r, faults=[OK, False, ["fail-before"], OK, OK]),
-                  load_case("nope"), load_case(r, faults=[OK, False, ["fail-after"], OK, OK])]
+                  load_case(r, faults=faults(remove=["fail-after"])), load_case(r, faults=faults(branchD=["raise-after", "Injected"])),
+                  load_case(r, faults=faults(remove=["fail-before"])), load_case(r, faults=faults(add=["fail-before"])),
+                  load_case("nope"), load_case(r, faults=faults(add=["fail-after"])), load_case(r, faults=faults(remove=["torn"])),
+                  load_case(r, faults=faults(add=["torn", "KeyboardInterrupt"])), load_case(r, faults=faults(rmtree=["torn", "OSError"]))]
         run_load_batch(ctx, env, stale, scases + [random_load_case(ctx.rng, stale, {}) for _ in range(ctx.budget(4, 40))], "stale-foreign")
         run_check_batch(ctx, env, stale, [random_check_case(ctx.rng, stale, {}, faulty=False) for _ in range(ctx.budget(2, 10))])
         # a directory that is not a repository at all
@@ -1775,7 +2342,7 @@ def explore(ctx):
         ctx.case({"kind": "not-a-repository"}, True)
         mo = None
         try:
-            mo = ctx.model([["load_git", True, False, [[], 0, 0, [], [], [], [], []], NO_FAULTS, 5, "HEAD", [], []]])[0]
+            mo = ctx.model([["load_git", GUARD, True, False, [[], 0, 0, [], [], [], [], []], NO_FAULTS, 5, "HEAD", [], []]])[0]
         except Exception as e:
             if type(e).__name__ != "ModelUnavailable":
                 raise
@@ -1805,9 +2372,14 @@ def explore(ctx):
                 break
         if not quick:
             sample = [["normalize", "feat/x"], ["normalize", "@"], ["checkout-name", "@"], ["checkout-name", "a/b"], ["location", True, ["/", "tmp", "griffe-worktree-r-v1-x", "v1", "src", "a.py"]],
-                      ["load_git", True, True, [["main"], 1, 0, [["main", 1]], [["v1", 0]], [], [], []],
-                       [OK, False, OK, ["fail-after"], ["raise-after", "KeyboardInterrupt"]], 7, "v1", [[0, "package"], [1, "package"]],
-                       [["write"], ["raise", "Injected"]]],
+                      ["load_git", False, True, True, [["main"], 1, 0, [["main", 1]], [["v1", 0]], [], [], []],
+                       faults(remove=["fail-after"], branchD=["raise-after", "KeyboardInterrupt"], rmtree=["raise-after", "OSError"]), 7, "v1",
+                       [[0, "package"], [1, "package"]], [["write"], ["raise", "Injected"]]],
+                      ["load_git", True, True, True, [["main"], 1, 0, [["main", 1]], [["v1", 0]], [], [], []],
+                       faults(add=["torn", "KeyboardInterrupt"], remove=["fail-before"]), 7, "v1", [[0, "package"], [1, "package"]], []],
+                      ["load_git", False, True, True, [["main"], 1, 0, [["main", 1]], [["v1", 0]], [], [], []],
+                       faults(remove=["torn"], rmtree=["torn", "OSError"]), 7, "v1", [[0, "package"], [1, "package"]], [["write"]]],
+                      ["lines", ["tmp", "co"], [[["pkg", "a.py"], ["import os", "def f():", "    return 1", "x = 2"]]], ["pkg", "a.py"], 2, 3],
                       ["steps", [["main"], 1, 0, [["main", 1]], [["v1", 0]], [], [], []],
                        [["mkdtemp", 1], ["add", "griffe-a", 1, "v1"], ["touch", 1], ["remove", False, 1], ["branch-D", "griffe-a"], ["remove", True, 1], ["prune"], ["branch-D", "griffe-a"], ["rmtree", 1]]]]
             ctx.cross_check_extraction(sample)
